@@ -337,6 +337,30 @@ pub fn placement_heavy_net() -> impl Strategy<Value = PlacementRecipe> + Clone {
         })
 }
 
+/// G3 advanced pawns: two to five pawns of one side on its fifth to seventh rank (and up to four of
+/// the other side likewise advanced), a few pieces, kings anywhere - positions whose positional
+/// (piece-square) terms are worth several pawns, so that "material alone" and the real evaluation
+/// disagree by a lot (lazy evaluation margins, futility margins)
+pub fn placement_advanced_pawns() -> impl Strategy<Value = PlacementRecipe> + Clone {
+    (any::<bool>(), 0u8..64, 0u8..64, proptest::collection::vec((0u8..8, 4u8..7), 2..6), proptest::collection::vec((0u8..8, 4u8..7), 0..5), proptest::collection::vec((1u8..5, any::<bool>(), 0u8..64), 0..5), any::<bool>())
+        .prop_map(|(white_leads, wk, bk, lead, other, pieces, white_to_move)| {
+            let mut men: Vec<(u8, bool, u8)> = vec![];
+            // ranks are given from the owner's point of view (index 4..6 = fifth to seventh rank)
+            for (f, r) in lead {
+                let rr = if white_leads { r } else { 7 - r };
+                men.push((0, white_leads, rr * 8 + f));
+            }
+            for (f, r) in other {
+                let rr = if white_leads { 7 - r } else { r };
+                men.push((0, !white_leads, rr * 8 + f));
+            }
+            for (k, w, s) in pieces {
+                men.push((k, w, s));
+            }
+            PlacementRecipe { wk, bk, men, white_to_move, rights: 0, ep: 0 }
+        })
+}
+
 pub fn recipe_json(r: &PlacementRecipe) -> Value {
     match build_placement(r) {
         Some(p) => json!({"fen": p.fen()}),
@@ -422,6 +446,7 @@ pub fn walk_strategy(max_len: usize) -> impl Strategy<Value = WalkRecipe> + Clon
         1 => placement_castle().prop_map(Start::Placement),
         1 => placement_promo().prop_map(Start::Placement),
         1 => placement_ep().prop_map(Start::Placement),
+        1 => placement_advanced_pawns().prop_map(Start::Placement),
     ];
     (start, proptest::collection::vec(any::<u16>(), 0..max_len)).prop_map(|(start, choices)| WalkRecipe { start, choices })
 }
